@@ -13,6 +13,7 @@ import hashlib
 import json
 import os
 import pickle
+import sys
 import weakref
 
 from harness.common import sexp
@@ -524,6 +525,23 @@ def pycall(f, *a):
         return ("err", type(e).__name__)
 
 
+def pycall_long(f, *a):
+    """as pycall, with a 60 s limit and a recursion limit of 40000 (confirmation of a non-termination)"""
+    lim = sys.getrecursionlimit()
+    try:
+        sys.setrecursionlimit(max(lim, 40000))
+        with time_limit(60):
+            return ("ok", f(*a))
+    except Timeout:
+        return ("err", "timeout")
+    except RecursionError:
+        return ("err", "RecursionError")
+    except Exception as e:  # noqa
+        return ("err", type(e).__name__)
+    finally:
+        sys.setrecursionlimit(lim)
+
+
 def model_term(ans):
     """driver answer (ok Term)|(err K) -> ('ok', sexp string) | ('err',)"""
     if ans == "bad-op":
@@ -797,6 +815,17 @@ def ops_case(ctx, B, rng, dg):
     ctx.case(("beta_norm", wstr(cb0)), nontrivial=has_redex(bt))
     r = pycall(lambda: bt.beta_norm())
     check_op(ctx, B, "a", "beta_norm", ["betanorm", 3000, wire(bt)], r, None, rp)
+    if r[0] == "err":
+        # betaNorm_terminates / betaNorm_sem: on a well-typed term beta_norm RETURNS.  A depth/time
+        # failure is confirmed with a large recursion limit and a long time limit before it counts.
+        if type_of(cb0)[0] != "ok":
+            mismatch(ctx, "a:generator", "generated beta_norm input is not well-typed: %s" % wstr(cb0)[:400])
+        else:
+            r = pycall_long(lambda: bt.beta_norm()) if r[1] in ("RecursionError", "timeout") else r
+            if r[0] == "err":
+                report(ctx, "beta_norm-termination", "beta_norm does not return on a well-typed term (%s): %s" % (r[1], wstr(cb0)[:400]), rp)
+            else:
+                ctx.count("beta_norm:returned-only-with-raised-limits")
     if r[0] == "ok":
         if has_redex(r[1]):
             report(ctx, "beta_norm-normal", "beta_norm result still contains a redex: %s" % wstr(r[1])[:400], rp)
@@ -1748,6 +1777,10 @@ def replay(ctx, rp):
         fails = inplace_case(ctx, None, None, replay=r)
         print(fails[:3])
         return bool(fails)
+    if kind in ("pickle-eq", "pickle-hash", "pickle-id"):
+        res = _pickle_read(ctx, [_pickle_case(r["kind_obj"] if "kind_obj" in r else r.get("obj", "term"), r["wire"], r["hashed"])])
+        print("reader:", res)
+        return res is None or "err" in res[0] or not all(res[0].values())
     if kind in ("eq", "hash"):
         ts = _terms_of(r)
         t, u = ts["t"], ts["u"]
@@ -1858,6 +1891,92 @@ def corpus(ctx):
             ctx.violation(rp.get("key", "corpus:" + fn), rp.get("what", fn), rp["replay"])
 
 
+# ------------------------------------------------------------------ stream (e): terms pickled by one process, read by another
+_READER = r"""
+import sys, json, pickle, base64
+sys.path[:0] = [sys.argv[1], sys.argv[2]]
+from harness.common import kwire, sexp
+out = []
+for line in sys.stdin:
+    c = json.loads(line)
+    try:
+        t = pickle.loads(base64.b64decode(c["pk"]))
+        if c["kind"] == "term":
+            u = kwire.term_of(sexp.loads(c["wire"]))
+            back = sexp.dumps(kwire.term_to(t))
+        else:
+            u = kwire.ty_of(sexp.loads(c["wire"]))
+            back = sexp.dumps(kwire.ty_to(t))
+        out.append({"eq": bool(t == u) and bool(u == t), "hash": hash(t) == hash(u), "inset": t in {u} and u in {t},
+                    "same": back == c["wire"], "id_own": c["kind"] != "term" or t._id == id(t)})
+    except Exception as e:
+        out.append({"err": type(e).__name__ + ": " + str(e)[:200]})
+print(json.dumps(out))
+"""
+
+
+def _pickle_read(ctx, cases):
+    """run the reader process (another string-hash seed) on the cases; None if the process failed"""
+    import subprocess
+    env = dict(os.environ, PYTHONHASHSEED=str(1 + ctx.seed % 1000))
+    verif = os.path.dirname(os.path.dirname(os.path.dirname(os.path.abspath(__file__))))
+    pr = None
+    try:
+        pr = subprocess.run([sys.executable, "-c", _READER, ctx.repo, verif], input="".join(json.dumps(c) + "\n" for c in cases),
+                            capture_output=True, text=True, timeout=300, env=env)
+        return json.loads(pr.stdout)
+    except Exception as e:  # noqa
+        ctx.broken("correspondence:c03:e:reader", "reader process failed: %r %s" % (e, pr.stderr[-300:] if pr is not None else ""))
+        return None
+
+
+def _pickle_case(kind, w, hashed):
+    import base64
+    obj = kwire.term_of(sexp.loads(w)) if kind == "term" else kwire.ty_of(sexp.loads(w))
+    if hashed:
+        pycall(lambda: hash(obj))
+    return {"kind": kind, "wire": w, "hashed": hashed, "pk": base64.b64encode(pickle.dumps(obj)).decode()}
+
+
+def stream_pickle(ctx):
+    """`however they were obtained`: a term / type written with pickle by THIS process (after hash() memoised
+    `_hash_val` on some of its objects) and read by ANOTHER process (own string-hash seed) must there be == to the
+    same term built from scratch, with the same hash, and be found in a set holding it."""
+    import base64
+    rng = ctx.rng("pickle")
+    dg = DagGen(rng, share=0.3)
+    cases = []
+    for i in range(ctx.scale(40, 400)):
+        T = dg.ty(rng.randint(0, 2))
+        if i % 4 == 3:
+            obj, kind, w = T, "type", sexp.dumps(kwire.ty_to(T))
+        else:
+            obj = dg.term(T, rng.randint(1, 3), ())
+            kind, w = "term", wstr(obj)
+        hashed = rng.random() < 0.7
+        if hashed:
+            pycall(lambda: hash(obj))
+        ctx.case(("pickle-x", kind, w, hashed), nontrivial=hashed)
+        cases.append({"kind": kind, "wire": w, "hashed": hashed, "pk": base64.b64encode(pickle.dumps(obj)).decode()})
+    res = _pickle_read(ctx, cases)
+    if res is None:
+        return
+    for c, r in zip(cases, res):
+        if "err" in r:
+            ctx.count("pickle-x:reader-error")
+            mismatch(ctx, "e:reader", "reader raised %s on %s" % (r["err"], c["wire"][:300]))
+            continue
+        ctx.count("pickle-x:%s:%s" % (c["kind"], "hashed" if c["hashed"] else "fresh"))
+        rp = {"obj": c["kind"], "wire": c["wire"], "hashed": c["hashed"]}
+        if not r["same"] or not r["eq"]:
+            report(ctx, "pickle-eq", "a %s read back from a pickle is not == to the same %s built from scratch: %s" % (c["kind"], c["kind"], c["wire"][:300]), rp)
+        elif not r["hash"] or not r["inset"]:
+            report(ctx, "pickle-hash", "a %s that was hashed, pickled and read by another process is == to the same %s built there but has a "
+                   "different hash: %s" % (c["kind"], c["kind"], c["wire"][:300]), rp, key="stale-hash:pickle:read-by-another-process")
+        elif not r["id_own"]:
+            report(ctx, "pickle-id", "a term read from a pickle does not carry its own address as _id: %s" % c["wire"][:300], rp)
+
+
 # ------------------------------------------------------------------ run
 def run(ctx):
     ctx.coverage["rule"] = (
@@ -1871,7 +1990,9 @@ def run(ctx):
         "subst_type_inplace on DAGs. stream c: texts rendered from a typed AST (binder names clashing with free names) parsed by parse_term / "
         "Term(text) / as alpha-variant, against the constructed term. stream d: fast_compare_typ / Type.__lt__ / fast_compare on triples from "
         "families of equal-size terms, sorted_terms. A case = one term (a), history (b), text (c), pair (d); non-trivial: size >= 4 (a), >= 3 "
-        "comparisons (b), has a binder (c), different structures of equal size (d); distinct by the canonical s-expression.")
+        "comparisons (b), has a binder (c), different structures of equal size (d); distinct by the canonical s-expression. stream e: generated "
+        "terms and types, most of them hashed first, pickled by this process and read by a second process with another string-hash seed, compared "
+        "there (==, hash, set membership, _id) with the same term built from scratch; non-trivial: the object was hashed before pickling.")
     ok = ctx.lean_props(["Holpy.C03.Props"], exes=[EXE])
     if ctx.tier == "thorough" and ok:
         ctx.lean_check_modules(["Holpy.C03.Props"])
@@ -1882,12 +2003,17 @@ def run(ctx):
         "CPython reference counting: an object is freed when the last reference is dropped (weakref callbacks report it to the heap model)"]
     ctx.assumptions += [
         "finite standard models only; semantic comparisons whose types exceed the size cap are skipped (counted)",
-        "termination of beta_norm is strong normalisation of the simply typed lambda calculus: not proved (fuel model)",
+        "beta_norm: the Python recursion is modelled with a depth bound (fuel); the theorems say that some depth suffices for every well-typed term "
+        "and that the depth is not observable — that CPython's recursion limit is large enough for a given term is not part of the model",
         "subst_type_inplace rewrites shared objects: terms sharing objects with its target are outside the theorems (known finding)"]
+    # known_findings.json is generated from FINDINGS (tools_manifest.py): a `known` entry listed below is effective at once
+    for f in FINDINGS:
+        if f.get("status") == "known" and not any(g.get("key") == f["key"] for g in ctx.findings):
+            ctx.findings.append(dict(f, property="C03"))
     from logic import basic
     basic.load_theory('logic_base')
     corpus(ctx)
-    for name, f in (("a", stream_ops), ("b", stream_hist), ("c", stream_parse), ("d", stream_order)):
+    for name, f in (("a", stream_ops), ("b", stream_hist), ("c", stream_parse), ("d", stream_order), ("e", stream_pickle)):
         t0 = ctx.coverage["evaluations"]
         try:
             f(ctx)
@@ -1911,8 +2037,12 @@ MANIFEST = {
             "frees, hash, subst_type_inplace, allocating operations) == on two heap objects is alpha-equivalence of their unfoldings and their "
             "hashes agree (heap_eq_iff_alpha); fast_compare is transitive in all four </= combinations, antisymmetric and constant on == classes "
             "(cmp_trans, cmp_antisymm), hence a strictly sorted list is determined up to == by its elements (sorted_canonical); beta_conv keeps "
-            "type and denotation (betaConv_sem); beta_norm never raises, and whenever it returns the result is normal, typed, equal in denotation "
-            "and the same for every larger recursion depth (betaNorm_sem); "
+            "type and denotation (betaConv_sem); beta_norm TERMINATES on every term on which checked_get_type succeeds, under any binder context "
+            "(betaNorm_terminates: normalisation of the code's own strategy — normalise fun and arg, contract at the root, normalise the contractum — "
+            "proved as termination of hereditary substitution, induction on the size of the bound variable's type then on the normal body); it "
+            "never raises TermException on any term (betaNorm_no_exception), its answer does not depend on the recursion depth "
+            "(betaNorm_depth_irrelevant), and for a well-typed term the unique answer is beta-normal, typed at the same type and equal in "
+            "denotation (betaNorm_sem, full statement: exists depth, same answer at every depth that suffices); "
             "subst_type, subst, subst_bound, abstract_over/Lambda (closed bodies), beta_conv, beta_norm preserve well-typedness, the type and the "
             "denotation in every finite standard model (for every valuation and environment: no capture). The model is tied to kernel/term.py, "
             "type.py, term_ord.py by differential execution on generated DAG terms, object histories with the real addresses, and parsed terms; "
@@ -1920,14 +2050,21 @@ MANIFEST = {
             "re-implementations up to alpha, type preservation, `sem` in finite models, order axioms).",
     "note": "Trusted: Lean kernel; propext/Classical.choice/Quot.sound; Python's tuple/str hashing and str order; the correspondence is only as "
             "good as the generated cases. How __hash__ builds its value and which bound names results carry are NOT checked (reported as "
-            "info:* counters): a refactoring that keeps 'equal terms have equal hashes' passes. beta_norm: if it returns (fuel); termination not "
-            "proved. The caches of subst / incr_boundvars / abstract_over short cuts are covered by _id injectivity (theorem) plus differential "
+            "info:* counters): a refactoring that keeps 'equal terms have equal hashes' passes. beta_norm: the recursion of the Python is a depth bound in the model; termination is proved as 'some depth "
+            "suffices', so a RecursionError of CPython on a very deep term is outside the theorems (the oracle re-runs such a case with a raised "
+            "limit before reporting non-termination). The caches of subst / incr_boundvars / abstract_over short cuts are covered by _id injectivity (theorem) plus differential "
             "testing on shared DAGs; the caches of subst_bound and of subst's rec are modelled on the heap (subst's preceding subst_type and the "
-            "abs_name_inst renaming are not). Termination of beta_norm on well-typed terms (strong normalisation) is NOT proved. __copy__, deepcopy, pickle: "
-            "correspondence only. Infinite models outside the property.",
+            "abs_name_inst renaming are not). __copy__ is a model operation (copyRec, MStep.copy); deepcopy and pickle within one process are mirrored into the heap model "
+            "as Term(t)-like events (correspondence only, no separate Lean operation); a pickle read by ANOTHER process is judged by the oracle "
+            "only (stream e) — the model's hash nest abstracts from the per-process string hash, which is exactly what the known finding "
+            "stale-hash:pickle:read-by-another-process is about (fixes/C03-4.patch). Infinite models outside the property.",
     "design_ref": "DESIGN.md 4/C03",
 }
 FINDINGS = [
+    {"status": "known", "key": "stale-hash:pickle:read-by-another-process", "fix": "fixes/C03-4.patch",
+     "what": "a term or type that was hashed, pickled and loaded by another process keeps the writer's memoised _hash_val (string hashes are "
+             "per process), so it is == to the same term built by the reader but has a different hash: Comb(Var f, Var a) hashed, pickled "
+             "under PYTHONHASHSEED=1, read under PYTHONHASHSEED=2 (repair proposed in fixes/C03-4.patch: __setstate__ drops _hash_val)"},
     {"status": "fixed", "key": "history:stale-id-Term(t)", "commit": "4812387",
      "what": "Term(t) copied t._id: Term(Var('a', bool)) == Var('b', bool) was True once the temporary was freed and its address reused"},
     {"status": "fixed", "key": "history:stale-id-deepcopy", "commit": "a013fa9",
